@@ -40,6 +40,7 @@ func c12VoteSpecs(quick bool) []hapi.ArbSpec {
 	}
 	specs = append(specs,
 		hapi.ArbSpec{Name: "3-data-member-restart", Members: []hapi.ArbMember{d(1, 1), d(1, 1), d(1, 1)}, Candidates: []int{0, 1}, Rounds: 1, MaxLoss: 1, Restarts: 1},
+		hapi.ArbSpec{Name: "3-data-member-restart-two-losses", Members: []hapi.ArbMember{d(1, 1), d(1, 1), d(1, 1)}, Candidates: []int{0, 2}, Rounds: 1, MaxLoss: 2, Restarts: 1},
 		hapi.ArbSpec{Name: "3-data-equal-logs-two-losses", Members: []hapi.ArbMember{d(1, 1), d(1, 1), d(1, 1)}, Candidates: []int{0, 1}, Rounds: 1, MaxLoss: 2},
 		hapi.ArbSpec{Name: "3-data-three-candidates", Members: []hapi.ArbMember{d(1, 1), d(1, 1), d(1, 1)}, Candidates: []int{0, 1, 2}, Rounds: 1, MaxLoss: 0},
 		hapi.ArbSpec{Name: "3-data-two-rounds-one-loss", Members: []hapi.ArbMember{d(1, 1), d(1, 1), d(1, 1)}, Candidates: []int{0, 1}, Rounds: 2, MaxLoss: 1},
